@@ -181,6 +181,37 @@ func fanoutSites(p *Prog, methodName string) []fanoutSite {
 					}
 				}
 			}
+			// the loop starts from the cursor as the function leaves it: when the
+			// first index is computed from a field of the receiver, that field is
+			// not assigned again after it was read (a fan-out that runs before the
+			// cursor is moved rewinds the children after the *old* position)
+			if site.OK {
+				for _, e := range phi.Edges {
+					for _, o := range Origins(e, OriginOpts{ThroughBinOp: true}) {
+						if o.Kind != OrgField {
+							continue
+						}
+						ld, ok := o.Val.(ssa.Instruction)
+						if !ok {
+							continue
+						}
+						allInstrs(fn, false, func(_ *ssa.Function, ins ssa.Instruction) {
+							st, ok := ins.(*ssa.Store)
+							if !ok {
+								return
+							}
+							fs, root, elem := fieldChain(st.Addr)
+							if len(fs) == 0 || elem || fs[len(fs)-1] != o.Field || root != ssa.Value(fn.Params[0]) {
+								return
+							}
+							if executesAfter(ld, st) && !dominates(st, ld) {
+								site.OK = false
+								site.Why = "the loop starts from " + p.FieldName(o.Field) + " as it was before the function moved it (" + p.Pos(st.Pos()) + ")"
+							}
+						})
+					}
+				}
+			}
 			// the loop is left only at its bound or on a failure: any other exit
 			// edge (a second condition in the loop's test, a break) stops the
 			// fan-out before the last child
